@@ -221,7 +221,7 @@ _add("C09",
 _add("C12",
      text="Also decided: the same only-grows, adjacency and match_to_lint locality clauses as C02/C05.")
 _add("C14",
-     text="Also decided: the ignore hash uses a fixed-key hasher (never a RandomState or a container's own hasher); nothing reachable from LintContext::from_lint in the document module binary-searches the token vector (Markdown tokens are not in source order).",
+     text="Also decided: the ignore hash uses a fixed-key hasher (never a RandomState or a container's own hasher); a binary search over the token vector on the way to the ignore context is reported as undecided (it needs every front end to emit ordered tokens, which is not established; the Markdown parser did not before fix e7b4a9f).",
      technique="hasher provenance; who-may-call over the context construction")
 _add("C15",
      text="Also decided: every definition of the answer of a _str query / an FST exact query is the plumbed result of the delegated query (no second source of answers); every return of edit_distance_min_alloc is the saturation constant or a table cell, and the cell update has the recurrence's shape.",
